@@ -119,6 +119,47 @@ def run(prog, res):
             'lattice_lib._verify_dominances_hyperparameters'):
     validate.check_distinct_pairs(prog, res, prog.function(q))
   res.floor('V9', 2)
+  validate.check_bound_order(prog, res)
+  res.floor('V10', 6)
+  # ordering pairs with a cycle must be rejected or processed, never loop:
+  # the visit discipline of the explicit-stack DFS (shared with C06)
+  from . import C06
+  C06._toposort_visits(prog, res)
+  res.floor('O2', 1)
+  # key-points are STRICTLY increasing: equal neighbours give a zero-length
+  # piece (0 / 0 in the interpolation weights)
+  vf = prog.function('pwl_calibration_lib.verify_hyperparameters')
+  strict = loose = None
+  for c in ast.walk(vf.node):
+    if isinstance(c, ast.Compare) and len(c.ops) == 1 and all(
+        isinstance(x, ast.Subscript) and dotted(x.value) == 'input_keypoints'
+        for x in (c.left, c.comparators[0])):
+      a, b = norm_text(c.left.slice), norm_text(c.comparators[0].slice)
+      op = type(c.ops[0])
+      if (a, b) == ('i + 1', 'i'):
+        op = {ast.Gt: ast.Lt, ast.GtE: ast.LtE, ast.Lt: ast.Gt,
+              ast.LtE: ast.GtE}.get(op, op)
+        a, b = b, a
+      if (a, b) == ('i', 'i + 1'):
+        if op in (ast.Lt, ast.GtE):
+          strict = c      # all(k[i] < k[i+1]) / any(k[i] >= k[i+1])
+        elif op in (ast.LtE, ast.Gt):
+          loose = c
+    if isinstance(c, ast.Call) and dotted(c.func) == 'sorted' and c.args and \
+        dotted(c.args[0]) == 'input_keypoints':
+      loose = c
+  if strict is None and loose is None:
+    raise AnalysisError('pwl verify_hyperparameters: the order test of '
+                        'input_keypoints was not found')
+  res.check(strict is not None and loose is None, 'V11',
+            'pwl_calibration_lib.verify_hyperparameters|strictly-increasing',
+            vf.loc(strict or loose),
+            'consecutive input keypoints are compared with <',
+            'input keypoints are only required to be sorted (`%s`): equal '
+            'neighbours are accepted, the piece between them has length 0 and '
+            'the interpolation weights are 0 / 0' % norm_text(loose or
+                                                              strict)[:60])
+  res.floor('V11', 1)
   from ..rules import divisors
   divisors.check(prog, res, [f for f in prog.all_functions()
                              if f.parent is None])
